@@ -100,7 +100,10 @@ def check_pair(acc, pendulum, za, ia, zb, ib, clone_b=False, native=True):
              # abs() of intervals that are ALREADY absolute (whichever endpoint was given first), and twice
              ("abs-of-diff-default", lambda: abs(a.diff(b)), abs(diff)), ("abs-of-diff-default-rev", lambda: abs(b.diff(a)), abs(diff)),
              ("abs-of-absolute", lambda: abs(pendulum.interval(a, b, absolute=True)), abs(diff)),
-             ("abs-abs", lambda: abs(abs(a - b)), abs(diff))]
+             ("abs-abs", lambda: abs(abs(a - b)), abs(diff)),
+             # one Interval OBJECT that had abs() applied to it before it is negated / measured again
+             ("neg-after-abs", lambda: (lambda iv: (abs(iv), -iv)[1])(b - a), -diff), ("same-after-abs", lambda: (lambda iv: (abs(iv), abs(-iv), iv)[2])(b - a), diff),
+             ("neg-after-abs/rev", lambda: (lambda iv: (abs(iv), -iv)[1])(a - b), diff)]
     if za is not None and not clone_b:
         # the same endpoints with the other raw fold flag where it is inert (an unambiguous wall time built by
         # pendulum.datetime() carries fold=1, a converted one fold=0): same instants, same length
